@@ -388,6 +388,21 @@ class Check:
                     self.broken.append(("coqchk", prop_file, o[-2000:]))
             return allok
 
+    def extra_props(self, prop_file):
+        """count the theorems of a second statement file (already built as an extra target of proofs())"""
+        if os.environ.get("VERIF_DEV_SKIP_PROOFS"):
+            return
+        ok2, res, raw = coq_assumptions(prop_file)
+        if not ok2:
+            self.broken.append(("proof", prop_file, "Print Assumptions output could not be matched:\n" + raw[-2000:]))
+        for name, ax in res.items():
+            self.obligations += 1
+            self.theorems[name] = ax
+            if [a for a in ax if a not in AXIOM_ALLOWLIST]:
+                self.broken.append(("axioms", name, "depends on non-allow-listed axioms: %s" % ax))
+            else:
+                self.discharged += 1
+
     # -- builds ------------------------------------------------------------------------------
     def build(self, variants=("default",), model=True):
         with Lock():
